@@ -71,13 +71,14 @@ class HierCase(object):
                 names = self.full_names[self.n_mech:]
                 ll.fix_parameters(dict(zip(names, self.sigma_values)))
             if self.id_style == 'int':
-                ll.set_id(10 + i)
+                ll.set_id(1 + i)
             elif self.id_style == 'str':
-                ll.set_id('patient-%s' % 'abcdefgh'[i])
+                ll.set_id('patient-%s' % 'abcdefghijklmnopqrst'[i])
             elif self.id_style == 'unsorted':
                 # order of the individuals differs from the sort order of
                 # their labels
-                ll.set_id(['mouse 7', 'mouse 10', 'B', 'a', '2', '11'][i])
+                ll.set_id((['mouse 7', 'mouse 10', 'B', 'a', '2', '11'] + [
+                    str(30 - j) for j in range(20)])[i])
             if tap:
                 ll.get_submodels()['Mechanistic model'].tap = True
             lls.append(ll)
